@@ -54,6 +54,13 @@ var propInfo = map[string]struct {
 			"the preconditions under which a function is panic-free are those of its contract; that every caller establishes them is checked at the call sites that are themselves under contract",
 			"panics inside standard-library callees are not modelled (regexp.Compile and strconv return errors; fmt does not panic on the values passed)",
 		}},
+	"C04": {"proof",
+		"Two of the three rewriting steps are proved on the real code. (1) Boolean simplification (tryOptimizeAndOr): for an arbitrary pair, wherever the original expression evaluates the rewritten one evaluates to the same Boolean (12 return sites: true & x, x & false, false | x, ... and the all-literal cases), against the documented short-circuit meaning of & and |. (2) Constant folding of a binary node (tryOptimizeBinaryOpExecute): the literal that replaces the node carries exactly the value Execute returned, of the same kind (integer stays integer, float stays float, text stays text, Boolean stays Boolean), the unchecked type assertions cannot fail, and child links are never left nil.",
+		[]string{
+			"the meaning of & | and of a Boolean literal (axioms ev_and, ev_or, ev_bool) and the result kinds of BinaryOpExpr.Execute are taken from the README; that Execute implements them is C01's subject (assumed contract, listed)",
+			"NOT covered: re-association of + and * chains (tryReorderBinaryOp, isBinaryOpExprAllValue), folding of constant function calls (tryOptimizeFunctionCall: assumed thin contract), and the composition over the whole tree (in-place mutation of a tree needs an ownership argument outside this contract language)",
+			"floats are uninterpreted: no claim about IEEE rounding of re-associated chains (outside the property by its own quantifier)",
+		}},
 }
 
 func propLevel(p string) (string, bool) {
